@@ -425,6 +425,12 @@ func txRace(r *rng, add func(violation)) {
 	e1 := w.tx.Commit()
 	e2 := w.tx.Rollback()
 	e3 := w.tx.Query(context.Background(), txStmts[0], Person{ID: 1}).Run()
+	// ... also when the arguments of the new Query would not bind (none, nil, another type)
+	for _, bad := range [][]any{nil, {nil}, {Address{}}} {
+		if e := w.tx.Query(context.Background(), txStmts[0], bad...).Run(); txErrClass(e) != "txdone" {
+			e3 = e
+		}
+	}
 	if txErrClass(e1) != "txdone" || txErrClass(e2) != "txdone" || txErrClass(e3) != "txdone" {
 		viol("C12", "operation-after-end-did-not-fail-with-ErrTXDone", fmt.Sprint(e1, e2, e3))
 	}
@@ -444,7 +450,7 @@ func txFault(r *rng, add func(violation)) {
 	viol := func(prop, name, detail string) { add(violation{prop, name, hx(desc), detail}) }
 	w := newTxWorld(r, viol)
 	defer func() { w.db.PlainDB().Close(); dropFakeDB(w.f.name) }()
-	fault := []error{fmt.Errorf("injected-7"), driver.ErrBadConn, fmt.Errorf("wrapped: %w", driver.ErrBadConn)}[r.intn(3)]
+	fault := []error{fmt.Errorf("injected-7"), driver.ErrBadConn, fmt.Errorf("wrapped: %w", driver.ErrBadConn), nil}[r.intn(4)]
 	nbefore := r.intn(3)
 	for i := 0; i < nbefore; i++ {
 		w.tx.Query(context.Background(), txStmts[r.intn(3)], Person{ID: 10 + i, Name: "a"}).Run()
@@ -454,7 +460,18 @@ func txFault(r *rng, add func(violation)) {
 	w.f.failAt = map[int]error{w.f.calls + 1: fault}
 	w.f.mu.Unlock()
 	kind := r.intn(3)
-	err := w.tx.Query(context.Background(), txStmts[kind], Person{ID: 666, Name: "f"}).Run()
+	callCtx := context.Background()
+	if fault == nil {
+		// no driver fault: the call's own context has ended (the transaction's has not)
+		c, cancel := cancellable(context.Background(), r.next())
+		cancel()
+		callCtx = c
+		fault = context.Canceled
+		w.f.mu.Lock()
+		w.f.failAt = map[int]error{}
+		w.f.mu.Unlock()
+	}
+	err := w.tx.Query(callCtx, txStmts[kind], Person{ID: 666, Name: "f"}).Run()
 	w.f.mu.Lock()
 	w.f.failKinds = nil
 	w.f.failAt = map[int]error{}
